@@ -316,9 +316,180 @@ func e12NeverReadyCase(seed uint64, n int) Case {
 	}}
 }
 
+
+// e12PointRun: a controller whose first list takes one virtual second, a tree
+// (monitors, filtered and deferred nodes with filters supplied) built while
+// that list is in flight, then: first list applied, ready, events, one relist.
+// The root is taken down from INSIDE one of the library's own steps: logger
+// point firePoint (cancel or Close started there while the logging goroutine
+// is held for a moment), or the library's fireCtx-th consultation of its
+// context.  Whatever the instant, every descendant must become done and every
+// Events() channel must be closed.  Returns (logger points, ctx consultations).
+func e12PointRun(r *Res, seed uint64, tr int, mech string, firePoint, fireCtx int) (int, int) {
+	rng := kit.NewRng(kit.Mix(seed, uint64(tr)+1250))
+	nn := 6 + rng.Intn(5)
+	P := 10 * time.Second
+	core := kit.NewCore(&kit.Plan{Seed: rng.U64(), PYield: 100, PSleep: 20, MaxSleep: 80 * time.Microsecond})
+	srv := kit.NewPodServer(core)
+	u := smallUniverse()
+	for i := 0; i < 4; i++ {
+		u.mutate(rng, srv)
+	}
+	srv.ListPlan = func(i int) kit.ListFault {
+		if i == 1 {
+			return kit.ListFault{Latency: time.Second}
+		}
+		return kit.ListFault{}
+	}
+	tctx := kit.NewTrigCtx()
+	g, err := newCtlRigCtx(core, srv, P, nil, tctx, tctx.Cancel)
+	if err != nil {
+		r.Inc(err.Error())
+		return 0, 0
+	}
+	fam := filterFamily()
+	t := newTree(g.ctl)
+	if _, err := t.addChild(t.root, "monitor", nil, true); err != nil {
+		r.V("C11", "tree-build-error", "%v", err)
+		return 0, 0
+	}
+	if err := t.grow(rng, nn-1, 3, fam, childKinds, true); err != nil {
+		r.V("C11", "tree-build-error", "%v", err)
+		return 0, 0
+	}
+	for _, n := range t.nodes {
+		if n.deferred {
+			f := fam[[]int{0, 2, 3, 5}[rng.Intn(4)]]
+			n.refilt(f)
+			n.filter, n.supplied = f, true
+		}
+	}
+	// the tree is complete and the first list is still in flight: arm the trigger now
+	var fired atomic.Bool
+	fire := func() {
+		if !fired.CompareAndSwap(false, true) {
+			return
+		}
+		if mech == "close" {
+			go g.ctl.Close()
+		} else {
+			tctx.Cancel()
+		}
+	}
+	base := core.Seq()
+	cbase := tctx.Calls()
+	if firePoint > 0 {
+		core.TriggerAt(base+firePoint, fire)
+	}
+	if fireCtx > 0 {
+		tctx.CancelAtCall(cbase + fireCtx)
+	}
+	stopped := func() bool { return fired.Load() || tctx.Fired() }
+	phase := func(f func()) {
+		if !stopped() {
+			f()
+		}
+	}
+	phase(func() { waitCh(g.ctl.Ready(), 3*time.Second) })
+	phase(func() { time.Sleep(time.Millisecond) })
+	if tr%2 == 0 {
+		// long scenario; odd trees stop here, so that their K trigger positions
+		// fall densely around "first list applied / ready"
+		for i := 0; i < 6; i++ {
+			phase(func() { u.mutate(rng, srv) })
+		}
+		phase(func() { time.Sleep(P + 2*time.Second) }) // one relist
+		for i := 0; i < 3; i++ {
+			phase(func() { u.mutate(rng, srv) })
+		}
+	} else {
+		phase(func() { u.mutate(rng, srv) })
+	}
+	phase(func() { time.Sleep(time.Millisecond) })
+	if firePoint <= 0 && fireCtx <= 0 {
+		n, c := core.Seq()-base, tctx.Calls()-cbase
+		g.shutdown(r, "C12")
+		return n, c
+	}
+	where := ""
+	switch {
+	case tctx.Fired():
+		where = fmt.Sprintf("inside the library's consultation #%d of its context (%s)", fireCtx, tctx.FiredIn())
+		r.Set("trigger-points", tctx.FiredIn())
+	case fired.Load():
+		where = fmt.Sprintf("from inside logger point #%d (%s)", firePoint, core.TriggerPoint())
+		r.Set("trigger-points", core.TriggerPoint())
+	default:
+		r.Add("trigger-point-not-reached", 1)
+		where = "at the end of the scenario"
+		fire()
+	}
+	bound := virtBound
+	for _, n := range t.nodes {
+		if !waitCh(n.done, bound) {
+			r.V("C11", "descendant-not-closed", "root taken down via %s %s: %s is not done %v later (tree of %d nodes, controller done: %v)\n%s", mech, where, n, bound, len(t.nodes), isClosed(g.ctl.Done()), kit.CensusText(kit.Census(), 12))
+			tctx.Cancel()
+			return 0, 0
+		}
+	}
+	g.barrier()
+	for _, n := range t.nodes {
+		r.Add("subtree-nodes-checked", 1)
+		if n.mir != nil && !n.mir.isClosed() {
+			r.V("C11", "events-not-closed", "root taken down via %s %s: Events() of %s has not been closed", mech, where, n)
+		}
+	}
+	r.Add("point-triggered-shutdowns", 1)
+	tctx.Cancel()
+	g.barrier()
+	if gs := kit.Census(); len(gs) > 0 {
+		r.V("C12", "goroutine-leak", "root taken down via %s %s: %d library goroutine(s) remain: %v\n%s", mech, where, len(gs), kit.CensusKeys(gs), kit.CensusText(gs, 6))
+	}
+	return 0, 0
+}
+
+func e12PointCase(seed uint64, tr int, mech string, k, K int, ctxTrig bool) Case {
+	kind := "point"
+	if ctxTrig {
+		kind = "ctxcall"
+	}
+	id := fmt.Sprintf("E12/at-%s/%d/t%d/%s/%d-of-%d", kind, seed, tr, mech, k, K)
+	return Case{ID: id, Desc: map[string]interface{}{"seed": seed, "tree": tr, "mechanism": mech, "trigger": kind, "k": k, "K": K}, Bubble: true, Run: func(r *Res) {
+		n, c := e12PointRun(r, seed, tr, mech, 0, 0)
+		if r.Failed() {
+			return
+		}
+		if ctxTrig {
+			if c <= 0 {
+				r.Inc("no context consultation counted in the dry run")
+				return
+			}
+			e12PointRun(r, seed, tr, "cancel", 0, 1+k*c/K)
+		} else {
+			if n <= 0 {
+				r.Inc("no logger point counted in the dry run")
+				return
+			}
+			e12PointRun(r, seed, tr, mech, 1+k*n/K, 0)
+		}
+		r.Set("victim-kinds", "root/at-"+kind+"/"+mech)
+		r.Key(id)
+	}}
+}
+
 func init() {
 	register("E12", func(tier string, seed uint64) []Case {
 		var cases []Case
+		for tr := 0; tr < tierPick(tier, 4, 60); tr++ {
+			K := tierPick(tier, 20, 60)
+			for k := 0; k < K; k++ {
+				cases = append(cases, e12PointCase(seed, tr, []string{"cancel", "close"}[(k+tr)%2], k, K, false))
+			}
+			KC := tierPick(tier, 8, 16)
+			for k := 0; k < KC; k++ {
+				cases = append(cases, e12PointCase(seed, tr, "cancel", k, KC, true))
+			}
+		}
 		nt := tierPick(tier, 6, 1500)
 		for tr := 0; tr < nt; tr++ {
 			size := e12TreeSize(seed, tr)
